@@ -2,6 +2,7 @@
 
 from __future__ import annotations
 
+import os
 import time
 from typing import Any, Callable
 
@@ -189,6 +190,10 @@ def make_replay(plans_of: Callable[[str], list[dict[str, Any]]]) -> Callable[[di
 
 def run_property(ctx: common.Context, plans_of: Callable[[str], list[dict[str, Any]]], replay_fn: Callable[[dict[str, Any]], tuple[bool, str]], quick_s: float = 170, thorough_s: float = 1500) -> None:
     plans = plans_of(ctx.tier)
+    only = os.environ.get("VERIF_ONLY_PLAN")  # development aid: explore the plans whose name contains this text
+    if only:
+        plans = [p for p in plans if only in p["name"]]
+        ctx.exhaustive = False
     totals = run_plans(ctx, plans, quick_s if not ctx.thorough else thorough_s, replay_fn)
     ctx.bounds = {p["name"]: p["bounds"] for p in plans}
     ctx.assumptions = [
